@@ -535,3 +535,55 @@ def inline_locals(fn: ast.AST, expr: ast.AST, depth: int = 5) -> ast.AST:
 def inorm(fn: ast.AST, expr: ast.AST) -> str:
     """norm() of `expr` with the single-assignment locals of `fn` inlined."""
     return norm(inline_locals(fn, expr))
+
+
+def _relink(root: ast.AST, original: ast.AST) -> ast.AST:
+    """Re-establish the index's private links (_parent, _module, _func, ...) on a deep copy of a function."""
+    for attr in ("_parent", "_module", "_qualname", "_class", "_func"):
+        if hasattr(original, attr):
+            setattr(root, attr, getattr(original, attr))
+    mod = getattr(original, "_module", None)
+    stack = [root]
+    while stack:
+        node = stack.pop()
+        for child in ast.iter_child_nodes(node):
+            child._parent = node  # type: ignore[attr-defined]
+            child._module = mod  # type: ignore[attr-defined]
+            if not hasattr(child, "_func"):
+                child._func = root if not isinstance(node, (ast.FunctionDef, ast.AsyncFunctionDef)) or node is root else node  # type: ignore[attr-defined]
+            stack.append(child)
+    return root
+
+
+def rename_locals(fn: ast.AST, mapping: dict[str, str]) -> ast.AST:
+    """A linked deep copy of `fn` in which the locals `mapping` names are renamed (parameters are never renamed)."""
+    import copy
+
+    params = {a.arg for a in [*fn.args.posonlyargs, *fn.args.args, *fn.args.kwonlyargs]}
+    mapping = {k: v for k, v in mapping.items() if k not in params and k != v}
+    new = copy.deepcopy(fn)
+    if mapping:
+        for n in ast.walk(new):
+            if isinstance(n, ast.Name) and n.id in mapping:
+                n.id = mapping[n.id]
+    return _relink(new, fn)
+
+
+def canonical_by_callee(fn: ast.AST, callee: ast.AST, is_call) -> ast.AST:
+    """Rename the locals of `fn` that are passed to `callee` (calls selected by `is_call`) after the parameters
+    they feed: rules written against the parameter names then hold however the caller spells its locals.
+    Returns `fn` itself when there is nothing to rename or the calls disagree."""
+    cparams = [a.arg for a in [*callee.args.posonlyargs, *callee.args.args] if a.arg not in ("self", "cls")]
+    mapping: dict[str, str] = {}
+    for c in own_nodes(fn):
+        if not (isinstance(c, ast.Call) and is_call(c)):
+            continue
+        pairs = [(a, cparams[i]) for i, a in enumerate(c.args) if i < len(cparams) and isinstance(a, ast.Name)]
+        pairs += [(k.value, k.arg) for k in c.keywords if k.arg and isinstance(k.value, ast.Name)]
+        for a, pname in pairs:
+            if mapping.get(a.id, pname) != pname:
+                return fn  # one local feeds different parameters: no canonical name
+            mapping[a.id] = pname
+    taken = {n.id for n in ast.walk(fn) if isinstance(n, ast.Name)} | {a.arg for a in fn.args.args}
+    mapping = {k: v for k, v in mapping.items() if k != v and v not in taken}
+    return rename_locals(fn, mapping) if mapping else fn
